@@ -93,7 +93,7 @@ def HdrOp.apply (h : Header) : HdrOp → Header
   | .del k => Header.del h k
 
 /-- what the protected handler does on one invocation, in this order: read from the body, change
-    its copy of the request, add response headers, `WriteHeader`, `Write` calls, `Hijack`. -/
+    its copy of the request, add response headers, `WriteHeader`, `Write` calls, `Flush`, `Hijack`. -/
 structure Attempt where
   /-- `none`: read to EOF; `some k`: read at most `k` bytes -/
   read : Option Nat := none
@@ -103,6 +103,8 @@ structure Attempt where
   status : Option Nat := none
   writes : List Bytes := []
   hijack : Bool := false
+  /-- the handler asks for `http.Flusher`; `bufferWriter` does not offer it, so nothing happens -/
+  flush : Bool := false
 deriving Repr
 
 /-! ## `multibuf.New` -/
